@@ -217,6 +217,16 @@ Theorem C09_verdict_independent_of_history : forall strict items raws,
 Proof. intros strict items raws. split; [exact (mstep_keeps_empty strict items)|exact (mrun_independent strict items raws)]. Qed.
 Print Assumptions C09_verdict_independent_of_history.
 
+(* key_lookup depends only on its arguments: on one parser object, after ANY earlier lookups in ANY earlier texts (of the
+   same length or not), a lookup returns exactly what a fresh parser returns for (configuration, keyword, start) *)
+Theorem C09_key_lookup_depends_only_on_its_arguments :
+  (forall calls st, snd (lookup_seq st calls) =
+     map (fun c => key_lookup (fuel_of (fst (fst c))) (fst (fst c)) (snd (fst c)) (snd c)) calls) /\
+  (forall st pre conf key sp,
+     last (snd (lookup_seq st (pre ++ [(conf, key, sp)]))) KL_notfound = key_lookup (fuel_of conf) conf key sp).
+Proof. split; [exact lookup_seq_pure|exact lookup_after_history]. Qed.
+Print Assumptions C09_key_lookup_depends_only_on_its_arguments.
+
 (* the clearing is what makes it true: the same parser object used for two texts with no clear in between accepts a
    misspelt keyword that sits where the first (rejected) text had a value *)
 Theorem C09_stale_registry_refuted :
